@@ -2456,4 +2456,83 @@ def ccn_checks(ctx, quick):
                         enc_mat([[Fr(float(x)) for x in r] for r in Sfull32.tolist()])])
         todo.append((req, ccn_impl_results(ccn, has_links),
                      f"N_1={N1} N_2={N2} directed={directed} A={enc_mat(A)}"))
+    # round 5: objects of the subclass CoupledTsonisClimateNetwork (constructed from two ClimateData
+    # sets through CoupledClimateNetwork.__init__; threshold and link_density paths, non_local):
+    # the inherited wrappers against the Lean model on *their* adjacency, and the layer
+    # decomposition on the implementation
+    from pyunicorn.climate import CoupledTsonisClimateNetwork, ClimateData
+    for _ in range(2 if quick else 8):
+        N1, N2 = rng.randrange(2, 6), rng.randrange(2, 6)
+        n = N1 + N2
+        T = 24
+        tt = np.arange(float(T))
+        g1 = GeoGrid(tt, np.array([-40.0 + 9.0 * k for k in range(N1)]),
+                     np.array([10.0 + 7.0 * k for k in range(N1)]), silence_level=3)
+        g2 = GeoGrid(tt, np.array([5.0 + 11.0 * k for k in range(N2)]),
+                     np.array([120.0 + 5.0 * k for k in range(N2)]), silence_level=3)
+        nprng = np.random.RandomState(rng.randrange(2 ** 31))
+        o1, o2 = nprng.randn(T, N1), nprng.randn(T, N2)
+        for k in range(min(N1, N2)):
+            if rng.random() < 0.6:
+                o2[:, k] += o1[:, k] * rng.choice([1.0, 2.0])
+        kw = {"threshold": rng.choice([0.2, 0.35, 0.5])} if rng.random() < 0.6 else \
+            {"link_density": rng.choice([0.2, 0.4, 0.6])}
+        try:
+            with contextlib.redirect_stdout(io.StringIO()):
+                ccn = CoupledTsonisClimateNetwork(
+                    ClimateData(observable=o1, grid=g1, time_cycle=12, silence_level=3),
+                    ClimateData(observable=o2, grid=g2, time_cycle=12, silence_level=3),
+                    non_local=rng.random() < 0.3, silence_level=3, **kw)
+        except Exception as e:  # noqa
+            ctx.count("ccn:tsonis-constructor-raises:" + type(e).__name__)
+            continue
+        ccn.silence_level = 3
+        ctx.count("ccn:CoupledTsonisClimateNetwork:" + next(iter(kw)))
+        A = [[int(x) for x in r] for r in np.asarray(ccn.adjacency).tolist()]
+        has_links = any(any(r) for r in A)
+        la = [[Fr(0)] * n for _ in range(n)]
+        for a in range(n):
+            for b in range(a):
+                if A[a][b]:
+                    la[a][b] = la[b][a] = Fr(rng.randrange(1, 13), 4)
+        Du = floyd(n, [[Fr(1) if A[a][b] else None for b in range(n)] for a in range(n)])
+        Dw = Du
+        if has_links:
+            ccn.set_link_attribute("la", np.array([[float(x) for x in r] for r in la]))
+            Dw = floyd(n, [[la[a][b] if A[a][b] else None for b in range(n)] for a in range(n)])
+        ctx.case(("ccn-tsonis", A, N1), has_links,
+                 {"class": "CoupledTsonisClimateNetwork", "adjacency": A, "N_1": N1})
+        bad = None
+        try:
+            if int(ccn.N_1) != N1 or int(ccn.N_2) != N2 or list(ccn.nodes_1) != list(range(N1)) \
+                    or list(ccn.nodes_2) != list(range(N1, n)):
+                bad = f"N_1={ccn.N_1} N_2={ccn.N_2} nodes_1={ccn.nodes_1} nodes_2={ccn.nodes_2}"
+            else:
+                with contextlib.redirect_stdout(io.StringIO()):
+                    idg, cdg = ccn.internal_degree(), ccn.cross_degree()
+                    nil, ncl = ccn.number_internal_links(), int(ccn.number_cross_layer_links())
+                whole = [int(x) for x in np.asarray(ccn.degree()).tolist()]
+                parts = [int(x) + int(y) for x, y in zip(idg[0], cdg[0])] + \
+                    [int(x) + int(y) for x, y in zip(idg[1], cdg[1])]
+                if whole != parts or int(ccn.n_links) != int(nil[0]) + int(nil[1]) + ncl:
+                    bad = f"degree={whole} internal+cross={parts} n_links={ccn.n_links} " \
+                          f"internal={nil} cross={ncl}"
+        except Exception as e:  # noqa
+            bad = "raise:" + type(e).__name__
+        ctx.count("relation:ccn-layer-decomposition")
+        if bad:
+            ctx.fail({"class": "CoupledTsonisClimateNetwork", "method": "degree / n_links / layers",
+                      "relation": "layer-decomposition"},
+                     "layers / degree() / n_links of a CoupledTsonisClimateNetwork are not the "
+                     "bipartition (range(N_1), range(N_1, N)) resp. the sums over its layers: "
+                     + bad, {"adjacency": A, "N_1": N1, "N_2": N2, "arguments": str(kw)})
+        with contextlib.redirect_stdout(io.StringIO()):
+            G = np.asarray(ccn.distance(), dtype=float)
+            S32 = np.asarray(ccn.similarity_measure(), dtype=float)
+        req = " ".join(["ccn", "0", str(N1), str(n), enc_mat(A), enc_mat(Du), enc_mat(Dw),
+                        enc_mat([[Fr(float(x)) for x in r] for r in G.tolist()]),
+                        enc_mat([[Fr(float(x)) for x in r] for r in S32.tolist()])])
+        todo.append((req, ccn_impl_results(ccn, has_links),
+                     f"CoupledTsonisClimateNetwork N_1={N1} N_2={N2} directed=False "
+                     f"A={enc_mat(A)}"))
     ccn_correspondence(ctx, todo)
